@@ -38,6 +38,10 @@ class TaskHandler:
         self._lock = threading.Lock()
         self._open = True
 
+    def open(self):
+        """Accept tasks (again): a handler that was flushed by a shutdown is reopened by the next start."""
+        self._open = True
+
     def _next_id(self):
         with self._lock:
             self._job_id += 1
